@@ -1,8 +1,40 @@
 import Driver.Util
-/-! Driver commands: Text (stub — replaced by the real handler). -/
+import Slock.Model.Text
+/-! Driver commands for M-TEXT (byte strings are hex, `-` = empty):
+  textparse <chunk>,<chunk>,…        → <cmd>|<cmd>|…;<done|pending|err|panic>   (cmd = <arg>,<arg>,… ; `()` = no args; `none` = no command)
+  textbuild <arg>,<arg>,…  (or `()`)  → hex of BuildRequest
+  textresp <0|1> <msg> <res>,… | ()   → hex of BuildResponse
+-/
 namespace Driver
+open Slock.Text
 
-def handleText : List String → Option String
+def parseList (s : String) : Option (List (List UInt8)) :=
+  if s == "()" then some [] else (s.splitOn ",").mapM parseHex
+
+def showCmd (c : List Bytes) : String :=
+  if c.isEmpty then "()" else ",".intercalate (c.map showHex)
+
+def showCmds (cs : Cmds) : String :=
+  if cs.isEmpty then "none" else "|".intercalate (cs.map showCmd)
+
+def showStatus : Status → String
+  | .done => "done" | .pending => "pending" | .err => "err" | .panic => "panic"
+
+def handleTextParse : List String → Option String
+  | ["textparse", cs] => do
+    let chunks ← parseList cs
+    let (cmds, st) := (parseAll chunks).outcome
+    pure (showCmds cmds ++ ";" ++ showStatus st)
+  | ["textbuild", as] => do
+    let args ← parseList as
+    pure (showHex (buildRequest args))
+  | ["textresp", ok, msg, rs] => do
+    let m ← parseHex msg
+    let r ← parseList rs
+    pure (showHex (buildResponse (ok == "1") m r))
   | _ => none
+
+def handleText (toks : List String) : Option String :=
+  handleTextParse toks
 
 end Driver
